@@ -5,6 +5,7 @@ package provider
 // C17 — sweeping provider advertises every key to its closest peers, on schedule.
 
 import (
+	"os"
 	"context"
 	"crypto/sha256"
 	"errors"
@@ -51,6 +52,10 @@ type swSc struct {
 	Events    []swEv `json:"events"`
 	TotalMin  int    `json:"total_min"`
 	Deep      bool   `json:"deep_clusters,omitempty"` // the swarm has clusters under prefixes of 3-5 bits (lopsided tries with runs of empty sibling branches)
+	// LookupMs is what one closest-peers lookup costs in virtual time. Generated scenarios never use 0: with instantaneous
+	// lookups a region reprovide completes at the very nanosecond of its schedule slot, a coincidence of "now" with a slot
+	// offset that a real clock cannot produce (the schedule arithmetic treats an offset equal to now as a full interval away).
+	LookupMs int `json:"lookup_ms,omitempty"`
 }
 
 type advert struct {
@@ -82,6 +87,7 @@ func (st *swarmState) list() []int {
 type swRouter struct {
 	st     *swarmState
 	bucket int
+	cost   time.Duration
 }
 
 func (r *swRouter) GetClosestPeers(ctx context.Context, k string) ([]peer.ID, error) {
@@ -89,7 +95,20 @@ func (r *swRouter) GetClosestPeers(ctx context.Context, k string) ([]peer.ID, er
 	out := r.st.outage
 	r.st.mu.Unlock()
 	if out {
+		// a failing lookup costs (virtual) time like a failing send does: the provider retries failed regions without back-off
+		// until its connectivity checker (rate-limited) notices the outage, which would otherwise spin at one virtual instant
+		select {
+		case <-time.After(time.Second):
+		case <-ctx.Done():
+		}
 		return nil, errors.New("verif: network unreachable")
+	}
+	if r.cost > 0 {
+		select {
+		case <-time.After(r.cost):
+		case <-ctx.Done():
+			return nil, ctx.Err()
+		}
 	}
 	pp := swpp()
 	tk := sha256.Sum256([]byte(k))
@@ -192,7 +211,7 @@ func runSweep(t *testing.T, sc *swSc) swObs {
 			mhs[i] = mh.Multihash(kp.IDs[k])
 			sender.keyOf[kp.IDs[k]] = i
 		}
-		router := &swRouter{st: st, bucket: sc.Bucket}
+		router := &swRouter{st: st, bucket: sc.Bucket, cost: time.Duration(sc.LookupMs) * time.Millisecond}
 		dstore := dssync.MutexWrap(ds.NewMapDatastore())
 		self := peer.ID(pp.IDs[swPool-1])
 		ksDs := dssync.MutexWrap(ds.NewMapDatastore())
@@ -385,10 +404,17 @@ func judgeSweep(sc *swSc, obs *swObs, res *verifsim.Result) (cycles int) {
 	// group the log per key into advertisements (sends of one key at one virtual instant)
 	type ad struct {
 		at   time.Duration
+		last time.Duration
 		to   map[int]bool
 		addr string
 	}
 	perKey := map[int][]*ad{}
+	type rawSend struct {
+		at   time.Duration
+		to   int
+		addr string
+	}
+	raw := map[int][]rawSend{}
 	for _, a := range obs.Log {
 		if a.Key < 0 {
 			res.Fail("known-keys", "C17/sweep/unknown-key", "ADD_PROVIDER for a key that was never given to the provider")
@@ -407,10 +433,14 @@ func judgeSweep(sc *swSc, obs *swObs, res *verifsim.Result) (cycles int) {
 			return
 		}
 		ads := perKey[a.Key]
-		if len(ads) == 0 || ads[len(ads)-1].at != a.At {
+		// one advertisement = the sends of a key that follow each other within 10 s (lookups and failing sends cost virtual time,
+		// so the sends of one provide operation are spread over a few seconds)
+		if len(ads) == 0 || a.At-ads[len(ads)-1].last > 10*time.Second {
 			ads = append(ads, &ad{at: a.At, to: map[int]bool{}, addr: a.Addrs})
 		}
+		ads[len(ads)-1].last = a.At
 		ads[len(ads)-1].to[idx[a.To]] = true
+		raw[a.Key] = append(raw[a.Key], rawSend{a.At, idx[a.To], a.Addrs})
 		perKey[a.Key] = ads
 	}
 	inOutage := func(from, to time.Duration) bool {
@@ -422,6 +452,19 @@ func judgeSweep(sc *swSc, obs *swObs, res *verifsim.Result) (cycles int) {
 		}
 		return false
 	}
+	// deadlineAfter: a key last advertised at `last` is due by last+bound; when a router outage begins before that deadline the
+	// missed work must be caught up once the node is back online: the deadline moves to the outage's end plus a catch-up allowance
+	const catchUp = 10 * time.Minute
+	extendByOutages := func(dl time.Duration) time.Duration {
+		for _, o := range obs.Outages { // in order of occurrence
+			os, oe := time.Duration(o[0])*time.Minute, time.Duration(o[1])*time.Minute
+			if os <= dl && oe+catchUp > dl {
+				dl = oe + catchUp
+			}
+		}
+		return dl
+	}
+	deadlineAfter := func(last time.Duration) time.Duration { return extendByOutages(last + bound + time.Minute) }
 	nearRestart := func(from, to time.Duration) bool {
 		for _, r := range obs.Restarts {
 			rt := time.Duration(r) * time.Minute
@@ -438,7 +481,19 @@ func judgeSweep(sc *swSc, obs *swObs, res *verifsim.Result) (cycles int) {
 		want := nearestR(sw, sha256.Sum256([]byte(kp.IDs[sc.Keys[k]])), sc.R)
 		for _, w := range want {
 			if !bad[w] && !a.to[w] {
-				return false, fmt.Sprintf("key %d advertised at %v to %d peers but not to #%d, one of its %d nearest reachable peers (swarm %d)", k, a.at, len(a.to), w, sc.R, len(sw))
+				dbg := ""
+				if os.Getenv("VERIF_DEBUG") != "" {
+					kk := sha256.Sum256([]byte(kp.IDs[sc.Keys[k]]))
+					fmt.Fprintf(os.Stderr, "DEBUGSW key %08b%08b at %v\n", kk[0], kk[1], a.at)
+					for _, p := range sw {
+						mark := "-"
+						if a.to[p] {
+							mark = "*"
+						}
+						fmt.Fprintf(os.Stderr, "DEBUGSW %08b%08b %s #%d\n", pp.Kad[p][0], pp.Kad[p][1], mark, p)
+					}
+				}
+				return false, fmt.Sprintf("key %d advertised at %v to %d peers but not to #%d, one of its %d nearest reachable peers (swarm %d)%s", k, a.at, len(a.to), w, sc.R, len(sw), dbg)
 			}
 		}
 		return true, ""
@@ -464,6 +519,16 @@ func judgeSweep(sc *swSc, obs *swObs, res *verifsim.Result) (cycles int) {
 		return false
 	}
 	end := time.Duration(sc.TotalMin+1) * time.Minute
+	if os.Getenv("VERIF_DEBUG") != "" {
+		for k2 := range sc.Keys {
+			h := sha256.Sum256([]byte(kp.IDs[sc.Keys[k2]]))
+			var ts []string
+			for _, a := range perKey[k2] {
+				ts = append(ts, fmt.Sprintf("%v(%d)", a.at, len(a.to)))
+			}
+			fmt.Fprintf(os.Stderr, "DEBUG key %d %08b%08b: %v\n", k2, h[0], h[1], ts)
+		}
+	}
 	for k := range sc.Keys {
 		ads := perKey[k]
 		startM, started := obs.StartAt[k]
@@ -475,7 +540,8 @@ func judgeSweep(sc *swSc, obs *swObs, res *verifsim.Result) (cycles int) {
 					// a ProvideOnce after the stop is a legitimate advertisement
 					viaOnce := false
 					for _, om := range obs.OnceAt[k] {
-						if time.Duration(om)*time.Minute <= a.at && a.at <= time.Duration(om+2)*time.Minute {
+						// (carried out within 2 min, or once the node is back online when a router outage is in the way)
+						if time.Duration(om)*time.Minute <= a.at && a.at <= extendByOutages(time.Duration(om+2)*time.Minute) {
 							viaOnce = true
 						}
 					}
@@ -492,11 +558,22 @@ func judgeSweep(sc *swSc, obs *swObs, res *verifsim.Result) (cycles int) {
 			if inOutage(from-time.Minute, from+2*time.Minute) || nearRestart(from-time.Minute, from+2*time.Minute) || noReachableTarget(k, from, from+time.Minute) {
 				return true
 			}
-			for _, a := range ads {
-				if a.at >= from && a.at <= from+time.Minute+time.Second {
+			// the sends of the key between the call and the next quiescence, whatever advertisement group they fall in
+			var win *ad
+			for _, rs := range raw[k] {
+				if rs.at >= from && rs.at <= from+time.Minute+time.Second {
+					if win == nil {
+						win = &ad{at: rs.at, to: map[int]bool{}, addr: rs.addr}
+					}
+					win.last = rs.at
+					win.to[rs.to] = true
+				}
+			}
+			for _, a := range []*ad{win} {
+				if a != nil {
 					if ok, why := complete(k, a); !ok {
 						sig := "C17/sweep/" + what + "/incomplete"
-						if sc.Deep {
+						if sc.lopsided() {
 							sig = "C17/sweep/exploration-stops-early"
 						}
 						res.Fail("advertised-to-nearest", sig, "%s at minute %d: %s", what, m, why)
@@ -540,7 +617,7 @@ func judgeSweep(sc *swSc, obs *swObs, res *verifsim.Result) (cycles int) {
 			for i, tm := range times {
 				gap := tm - last
 				isEnd := i == len(times)-1
-				if gap > bound+time.Minute && !inOutage(last, tm) && !nearRestart(last, tm) && !noReachableTarget(k, last, tm) {
+				if gap > bound+time.Minute && tm > deadlineAfter(last) && !nearRestart(last, tm) && !noReachableTarget(k, last, tm) {
 					what := fmt.Sprintf("between advertisements at %v and %v", last, tm)
 					if isEnd {
 						what = fmt.Sprintf("after the last advertisement at %v until %v", last, tm)
@@ -548,6 +625,16 @@ func judgeSweep(sc *swSc, obs *swObs, res *verifsim.Result) (cycles int) {
 					var all []string
 					for _, a := range ads {
 						all = append(all, fmt.Sprintf("%v(%d)", a.at, len(a.to)))
+					}
+					if os.Getenv("VERIF_DEBUG") != "" {
+						for k2 := range sc.Keys {
+							h := sha256.Sum256([]byte(kp.IDs[sc.Keys[k2]]))
+							var ts []string
+							for _, a := range perKey[k2] {
+								ts = append(ts, fmt.Sprintf("%v(%d)", a.at, len(a.to)))
+							}
+							all = append(all, fmt.Sprintf("\n key %d %08b%08b: %v", k2, h[0], h[1], ts))
+						}
 					}
 					res.Fail("reprovide-on-schedule", "C17/sweep/reprovide-gap", "key %d: %v without re-advertisement %s; bound interval+delay = %v (r=%d, bucket=%d, swarm=%d); advertisements of the key: %v", k, gap, what, bound, sc.R, sc.Bucket, len(sc.Swarm), all)
 					return
@@ -558,7 +645,7 @@ func judgeSweep(sc *swSc, obs *swObs, res *verifsim.Result) (cycles int) {
 				if a.at > time.Duration(startM+2)*time.Minute && a.at <= until && !inOutage(a.at-time.Minute, a.at+time.Minute) {
 					if ok, why := complete(k, a); !ok {
 						sig := "C17/sweep/reprovide/incomplete"
-						if sc.Deep {
+						if sc.lopsided() {
 							sig = "C17/sweep/exploration-stops-early"
 						}
 						res.Fail("readvertised-to-nearest", sig, "%s", why)
@@ -616,7 +703,15 @@ func genSwarm(t *rapid.T, minN, maxN int, deep bool) []int {
 		}
 		var i int
 		if len(cand) > 0 {
-			i = cand[rapid.IntRange(0, len(cand)-1).Draw(t, "ci")]
+			// the candidates are sorted by key and rapid favours small numbers: index through a mixing function so that the
+			// members of a cluster are spread evenly under the cluster's prefix instead of sharing a much longer one
+			u := rapid.Uint64().Draw(t, "ci")
+			u ^= u >> 33
+			u *= 0xff51afd7ed558ccd
+			u ^= u >> 33
+			u *= 0xc4ceb9fe1a85ec53
+			u ^= u >> 33
+			i = cand[int(u%uint64(len(cand)))]
 		} else {
 			i = rapid.IntRange(0, swPool-2).Draw(t, "pi")
 		}
@@ -627,6 +722,45 @@ func genSwarm(t *rapid.T, minN, maxN int, deep bool) []int {
 		out = append(out, i)
 	}
 	return out
+}
+
+// deepCluster reports whether `need` peers of the swarm share a prefix at least 3 bits longer than a uniform swarm of that
+// size would give (8 times denser than average): the lopsided shape under which the listed exploration finding operates.
+func deepCluster(swarm []int, need int) bool {
+	pp := swpp()
+	if need < 2 || len(swarm) < need {
+		return false
+	}
+	ms := append([]int(nil), swarm...)
+	sort.Slice(ms, func(a, b int) bool { return verifsim.BitString(pp.Kad[ms[a]], 64) < verifsim.BitString(pp.Kad[ms[b]], 64) })
+	thr := 3
+	for x := len(swarm) / need; x > 1; x /= 2 {
+		thr++
+	}
+	if len(swarm)%need != 0 || len(swarm)/need&(len(swarm)/need-1) != 0 {
+		thr++ // ceil
+	}
+	for i := 0; i+need <= len(ms); i++ {
+		if verifsim.CPL(pp.Kad[ms[i]], pp.Kad[ms[i+need-1]]) >= thr {
+			return true
+		}
+	}
+	return false
+}
+
+// lopsided: the scenario's swarm has deep clusters, by construction (Deep) or by accident of the draw
+func (sc *swSc) lopsided() bool {
+	if sc.Deep {
+		return true
+	}
+	all := append([]int(nil), sc.Swarm...)
+	for _, e := range sc.Events {
+		if e.Ev == "grow" {
+			all = append(all, e.Peers...)
+		}
+	}
+	need := max(3, min(sc.R, sc.Bucket))
+	return deepCluster(sc.Swarm, need) || deepCluster(all, need)
 }
 
 func genSweep(t *rapid.T, regime string) swSc {
@@ -655,6 +789,7 @@ func genSweep(t *rapid.T, regime string) swSc {
 	}
 	nk := rapid.IntRange(1, 60).Draw(t, "nKeys")
 	sc.Keys = rapid.SliceOfNDistinct(rapid.IntRange(0, swPool-1), nk, nk, func(i int) int { return i }).Draw(t, "keys")
+	sc.LookupMs = rapid.SampledFrom([]int{1, 3, 20, 150}).Draw(t, "lookupMs")
 	sc.IntervalM = rapid.SampledFrom([]int{30, 60}).Draw(t, "interval")
 	sc.DelayM = rapid.SampledFrom([]int{5, 10}).Draw(t, "delay")
 	w := rapid.SampledFrom([][3]int{{4, 2, 1}, {1, 0, 0}, {2, 1, 1}, {8, 0, 0}}).Draw(t, "workers")
@@ -697,13 +832,13 @@ func genSweep(t *rapid.T, regime string) swSc {
 func sweepCheck(part, regime, regimeText string) verifsim.Check[swSc] {
 	return verifsim.Check[swSc]{
 		Property: "C17", Part: part,
-		Rule: "rapid, regime " + regimeText + ": swarms built by construction from the SHA-256 prefix-indexed peer pool (uniform + up to 3 clusters), 1-60 keys, r 1-8, reprovide interval 30/60 min and max delay 5/10 min, four worker configurations, " +
+		Rule: "rapid, regime " + regimeText + ": swarms built by construction from the SHA-256 prefix-indexed peer pool (uniform + up to 3 clusters), 1-60 keys, r 1-8, reprovide interval 30/60 min and max delay 5/10 min, four worker configurations, closest-peers lookups costing 1-150 ms of virtual time (never 0), " +
 			"1.2-3.3 intervals of virtual time stepped minute by minute to quiescence, with events at minute boundaries: StopProviding, ProvideOnce, swarm growth/shrink, per-peer unreachability, router outages (2/10/45 min), Close+restart on the same datastore, self-address change; " +
 			"oracle over the ADD_PROVIDER log (key, recipient, virtual time, payload): recipients are swarm members, a start/provide-once is advertised by the next quiescence to every reachable member of the r nearest peers with the current address, kept keys are " +
 			"re-advertised completely at most interval+delay (+1 min, catch-up allowance after outages) apart, nothing after StopProviding; non-trivial = at least one complete re-advertisement cycle observed with churn, an outage, a restart or a stop",
 		Gen: func(t *rapid.T) swSc { return genSweep(t, regime) },
 		Excluded: func(sc swSc, known map[string]bool) string {
-			if sc.Deep && known["C17/sweep/exploration-stops-early"] {
+			if sc.lopsided() && known["C17/sweep/exploration-stops-early"] {
 				return "deep-clusters (known finding: exploration stops after two lookups without fresh peers although gaps remain)"
 			}
 			return ""
